@@ -223,17 +223,25 @@ def val_setuparg(ctx: Ctx) -> RuleResult:
     g = ctx.P.classes[ctx.cls_q("DiGraphEx")]
     f = g.methods.get("from_exec_nodes")
     r.require(f is not None, "from_exec_nodes not found")
-    ifs = [i for i in _raising_ifs(f) if ".setup" in norm_src(i.test)]
-    r.ob(len(ifs) == 1, {"refusal": norm_src(ifs[0].test) if ifs else None})
-    if not ifs:
+    # the refusal: a raise reached under  <node>.setup  and  any(<dependency is an input> ...)  - the two conjuncts may be one test,
+    # nested tests or a guard clause (`if not node.setup: continue`) followed by the second test
+    refusals = []
+    for rs in [n for n in iter_own_nodes(f.node) if isinstance(n, ast.Raise)]:
+        conds = reach_conditions(f.node, rs) or []
+        if any(pol and norm_src(c).endswith(".setup") for c, pol in conds):
+            refusals.append((rs, conds))
+    r.ob(len(refusals) == 1, {"refusal reached under": [("" if p_ else "not ") + norm_src(c)[:80] for c, p_ in refusals[0][1]] if refusals else None})
+    if not refusals:
         r.violate("DiGraphEx.from_exec_nodes: a setup node reading a DAG argument is not refused", f.loc(),
                   "the first call's argument would be frozen into the setup result", None)
         return r
-    t = ifs[0].test
-    ok = isinstance(t, ast.BoolOp) and isinstance(t.op, ast.And) and len(t.values) == 2 and norm_src(t.values[0]).endswith(".setup") \
-        and isinstance(t.values[1], ast.Call) and dotted(t.values[1].func) == "any"
-    r.require(ok, f"setup-argument test not recognised: {norm_src(t)}")
-    gen = t.values[1].args[0]
+    rs0, conds0 = refusals[0]
+    anys = [c for c, pol in conds0 if pol and isinstance(c, ast.Call) and dotted(c.func) == "any" and c.args
+            and isinstance(c.args[0], (ast.GeneratorExp, ast.ListComp))]
+    extra = [c for c, pol in conds0 if not (pol and norm_src(c).endswith(".setup")) and not any(c is a_ for a_ in anys)]
+    r.require(len(anys) == 1 and not extra, "setup-argument test not recognised: " + " and ".join(("" if p_ else "not ") + norm_src(c) for c, p_ in conds0))
+    ifs = [next(x for x in iter_own_nodes(f.node) if isinstance(x, ast.If) and any(y is anys[0] for y in ast.walk(x.test)))]
+    gen = anys[0].args[0]
     src = norm_src(gen.generators[0].iter)
     ok_src = src.endswith(".dependencies")
     r.ob(ok_src, {"checks": src})
